@@ -479,6 +479,35 @@ def C10(tier, rng):
             cs.append(Case('enc.rr %s' % prr(rr), 'standalone-ptr0'))
             r = Renderer(Layout(random.Random(1), compress=1.0)); r.rr(rr)
             cs.append(Case('dec.rr %s' % hx(bytes(r.out)), 'standalone-ptr0'))
+    cs += standalone_internal_pointer_cases()
+    return cs
+
+def standalone_internal_pointer_cases():
+    """stand-alone two-name records (MINFO, SOA) whose second RDATA name reaches the owner THROUGH the first RDATA name: owner
+    shapes x length of the first RDATA name x pointer target inside the owner, so that window-relative and absolute offsets
+    coincide in every small combination (a pointer is an absolute offset into the element's buffer whatever window the
+    reader is in)"""
+    cs = []
+    for owner in ((b'd',), (b'abc', b'd'), (b'ab',), (b'a', b'b', b'c'), (b'abcde',), ()):
+        ow = b''.join(bytes([len(l)]) + l for l in owner) + b'\0'
+        starts = [0]
+        for l in owner: starts.append(starts[-1] + len(l) + 1)      # offsets of every suffix of the owner (the last = its root)
+        for k1 in range(0, 5):                                        # octets of literal label in front of the first pointer
+            lab1 = (bytes([k1]) + b'n' * k1) if k1 else b''
+            for t1 in starts:
+                name1 = lab1 + (0xC000 | t1).to_bytes(2, 'big')
+                for ty in (14, 6):
+                    rd_off = len(ow) + 10
+                    for lab2 in (b'\1m', b'', b'\2xy'):
+                        name2 = lab2 + (0xC000 | rd_off).to_bytes(2, 'big')      # points at the first RDATA name
+                        rd = name1 + name2 + (bytes(20) if ty == 6 else b'')
+                        w = ow + ty.to_bytes(2, 'big') + b'\0\1\0\0\x0e\x10' + len(rd).to_bytes(2, 'big') + rd
+                        cs.append(Case('dec.rr %s' % hx(w), 'standalone-nested'))
+                        # the same record as the only answer of a message (offsets shifted by 12)
+                        sh = lambda nm: nm[:-2] + (0xC000 | (int.from_bytes(nm[-2:], 'big') & 0x3FFF) + 12).to_bytes(2, 'big')
+                        rd2 = sh(name1) + sh(name2) + (bytes(20) if ty == 6 else b'')
+                        m = b'\0\1\x81\x80\0\0\0\1\0\0\0\0' + ow + ty.to_bytes(2, 'big') + b'\0\1\0\0\x0e\x10' + len(rd2).to_bytes(2, 'big') + rd2
+                        cs.append(Case('dec.dns %s' % hx(m), 'standalone-nested-msg'))
     return cs
 
 def limit_names():
